@@ -15,6 +15,7 @@ pub mod c18;
 pub mod c19;
 pub mod c20;
 pub mod c13;
+pub mod mega;
 pub mod meta;
 pub mod values;
 pub mod stmt;
